@@ -2,16 +2,25 @@
    validate_license_keys, validate, dedup, combine_expressions. *)
 Require Import Model.Base Model.Expr Model.Simplify Model.Split Model.Trie Model.Overlap Model.LicTok Model.BoolParse.
 
+(* items of a sequence, each once, in the order of first appearance (also used for Python sets, whose
+   iteration order does not matter where they are used) *)
+Fixpoint ordered_unique {A} (eqb : A -> A -> bool) (acc : list A) (l : list A) : list A :=
+  match l with
+  | [] => acc
+  | x :: l' => if existsb (fun y => eqb y x) acc then ordered_unique eqb acc l' else ordered_unique eqb (acc ++ [x]) l'
+  end.
+
 Section Licensing.
 Variable O : oracle.
 
 (* ---- validate_symbols over (key, aliases, flag) entries with valid keys ---- *)
 Definition norm_alias (a : str) : str := norm_spaces O (strip O (lower O a)).
 
-(* one entry: the names it claims (normalised aliases, then its lower-cased key) *)
+(* one entry: the set of names it claims (normalised non-empty aliases and its lower-cased key) *)
 Definition entry_names (e : entry) : list str :=
-  filter (fun a => match a with [] => false | _ => true end) (map norm_alias (ealiases e))
-  ++ [lower O (strip O (ekey e))].
+  ordered_unique str_eqb []
+    (filter (fun a => match a with [] => false | _ => true end) (map norm_alias (ealiases e))
+     ++ [lower O (strip O (ekey e))]).
 
 Fixpoint assoc_get (k : str) (l : list (str * str)) : option str :=
   match l with
@@ -62,12 +71,6 @@ Definition new_licensing (raw : list entry) : outcome (list entry) :=
   obind (as_symbols raw) (fun T => if validate_symbols_err T then ValueErr else Ok T).
 
 (* ---- listings ---- *)
-Fixpoint ordered_unique {A} (eqb : A -> A -> bool) (acc : list A) (l : list A) : list A :=
-  match l with
-  | [] => acc
-  | x :: l' => if existsb (fun y => eqb y x) acc then ordered_unique eqb acc l' else ordered_unique eqb (acc ++ [x]) l'
-  end.
-
 Definition license_symbols (e : expr) (unique decompose_ : bool) : list atom :=
   let lits := literals e in
   let syms := if decompose_ then map Plain (flat_map decompose lits) else lits in
